@@ -4,7 +4,7 @@ from __future__ import annotations
 
 import collections
 
-from .kernel import HarnessError
+from .kernel import HarnessError, TaskKilled
 
 
 class SimRLock:
@@ -47,6 +47,8 @@ class SimRLock:
 
     def release(self):
         s = self.s
+        if s.teardown:
+            raise TaskKilled()
         if self.owner is not s.current:
             raise RuntimeError("cannot release un-acquired lock")
         self.count -= 1
@@ -73,6 +75,8 @@ class SimLock(SimRLock):
     def release(self):
         # a plain Lock may be released by any thread
         s = self.s
+        if s.teardown:
+            raise TaskKilled()
         if self.owner is None:
             raise RuntimeError("release unlocked lock")
         self.owner = None
